@@ -459,6 +459,20 @@ def check_matrix(rep, Em, ts, taumax, lag):
                    if i != j and exp[i][j] is not None and not same(Sm[i][j], exp[i][j], TOL_ES)]
             if np.shape(Sm) != (N, N) or bad:
                 rep.fail("event_series_analysis/es-symmetrisation-" + opt, W(), "(i,j,got,expected): %r" % (bad[:3],))
+        # the same requests again on the same object, in the opposite order and "directed" last: an answer must not depend
+        # on which symmetrisations were asked for before (a helper writing into the memoised directed matrix would show here)
+        for opt in list(reversed(ES_SYMS)) + ["directed"]:
+            rep.case()
+            Sm, exc = call(obj.event_series_analysis, method="ES", symmetrization=opt)
+            if exc is not None:
+                rep.fail("event_series_analysis/es-repeat-after-symmetrisation", W(option=opt), repr(exc))
+                continue
+            exp = sym_expected(D, opt)
+            bad = [(i, j, float(Sm[i][j]), exp[i][j]) for i in range(N) for j in range(N)
+                   if i != j and exp[i][j] is not None and not same(Sm[i][j], exp[i][j], TOL_ES)]
+            if np.shape(Sm) != (N, N) or bad:
+                rep.fail("event_series_analysis/es-repeat-after-symmetrisation", W(option=opt),
+                         "(i,j,got,expected): %r" % (bad[:3],))
     # ---- ECA
     if taumax is not None and all(cols):
         for w in WINDOWS:
